@@ -374,7 +374,7 @@ func isKey(s string, cs *sdcpb.SchemaElem_Container) bool {
 }
 
 func TypedValueToYANGType(tv *sdcpb.TypedValue, schemaObject *sdcpb.SchemaElem) (*sdcpb.TypedValue, error) {
-	switch tv.Value.(type) {
+	switch tv.GetValue().(type) {
 	case *sdcpb.TypedValue_AsciiVal:
 		return ConvertToTypedValue(schemaObject, tv.GetAsciiVal(), tv.GetTimestamp())
 	case *sdcpb.TypedValue_BoolVal:
